@@ -66,60 +66,67 @@ def check(prog, run):
         if isinstance(n, ast.For) and "definitions" in ast.unparse(n.iter):
             loop = n
     shapes.require(loop is not None, "C19.D3: loop over document definitions not found in __call__")
-    filt, filt_idx, measure_idx = None, None, None
-    for i, st in enumerate(loop.body):
-        if isinstance(st, ast.If) and "operation_name" in ast.unparse(st.test) and any(isinstance(x, ast.Continue) for x in st.body):
-            filt, filt_idx = st, i
-        if measure_idx is None and any(isinstance(x, ast.Call) and shapes.call_name(x) in ("selected_fields", "max", "collect_fields_untyped")
-                                       for x in ast.walk(st)):
-            measure_idx = i
-    shapes.require(measure_idx is not None, "C19.D3: measurement statement not found")
-    if filt is None:
-        if "operation_name" in {a.arg for a in prog.get_func(MOD, "MaxDepthValidationRule.__init__").node.args.kwonlyargs}:
-            r.instance("filter missing")
-            run.report(r, "%s:MaxDepthValidationRule.__call__:operation_name-filter" % MOD, call.where(loop),
-                       "operation_name is accepted by the constructor but no filter `continue`s in the definitions loop")
-    else:
-        var = loop.target.id
-        expr = boolx.inline_locals(call.node, filt.test, exclude=(var,))
-        roles = {}
-        for a in boolx.atoms(expr):
-            node = ast.parse(a, mode="eval").body
-            if isinstance(node, ast.Compare) and isinstance(node.ops[0], ast.Eq) and "operation_name" in a and (".name.value" in a):
-                roles[a] = "equal"
-            elif isinstance(node, ast.Attribute) and node.attr == "operation_name":
-                roles[a] = "configured"
-            elif isinstance(node, ast.Attribute) and node.attr == "name" and isinstance(node.value, ast.Name) and node.value.id == var:
-                roles[a] = "named"
-            elif isinstance(node, ast.Compare) and isinstance(node.ops[0], ast.Is) and "operation_name" in a and a.endswith("None"):
-                roles[a] = "not-configured"
-            elif isinstance(node, ast.Compare) and isinstance(node.ops[0], ast.Is) and a.endswith("None") and ast.unparse(node.left) == var + ".name":
-                roles[a] = "not-named"
-            else:
-                raise AnalysisError("C19.D3: unrecognised atom %r in the operation_name filter" % a)
-        bad = []
-        n_rows = 0
-        for configured in (False, True):
-            for named in (False, True):
-                for equal in (False, True):
-                    if equal and not named:
-                        continue
-                    env = {}
-                    for a, role in roles.items():
-                        env[a] = {"configured": configured, "named": named, "equal": equal,
-                                  "not-configured": not configured, "not-named": not named}[role]
-                    got = boolx.evaluate(expr, env)
-                    want = configured and not (named and equal)
-                    n_rows += 1
-                    r.instance("filter row configured=%s named=%s equal=%s -> skip=%s" % (configured, named, equal, got))
-                    if got != want:
-                        bad.append({"configured": configured, "named": named, "equal": equal, "skips": got, "expected": want})
-        if bad:
-            run.report(r, "%s:MaxDepthValidationRule.__call__:operation_name-filter" % MOD, call.where(filt),
-                       "operation_name filter has the wrong truth table: %s" % bad, {"rows": bad, "test": boolx.text(filt.test)})
-        if not (filt_idx < measure_idx):
-            run.report(r, "%s:MaxDepthValidationRule.__call__:filter-after-measurement" % MOD, call.where(filt),
-                       "the operation_name filter runs after the depth measurement")
+    # path form: for each (name configured?, operation named?, names equal?) enumerate the executions of the loop body for an
+    # operation definition and see whether a measurement call is reached; predicates factored out into helper
+    # methods/functions are evaluated under the same assignment.
+    import re
+    MEASURES = ("selected_fields", "max", "collect_fields_untyped")
+    if not any(isinstance(x, ast.Call) and shapes.call_name(x) in MEASURES for st in loop.body for x in ast.walk(st)):
+        raise AnalysisError("C19.D3: measurement statement not found")
+    has_kw = "operation_name" in {a.arg for a in prog.get_func(MOD, "MaxDepthValidationRule.__init__").node.args.kwonlyargs}
+    call_nodes = {}
+
+    def role_decide(configured, named, equal, owner):
+        def decide(t):
+            if re.match(r"^isinstance\(\w+, [\w.]*OperationDefinition\)$", t):
+                return True
+            if re.match(r"^[\w.]+\.operation_name$", t):
+                return configured
+            if re.match(r"^[\w.]+\.operation_name is None$", t):
+                return not configured
+            if re.match(r"^\w+\.name$", t):
+                return named
+            if re.match(r"^\w+\.name is None$", t):
+                return not named
+            if re.match(r"^\w+\.name\.value == [\w.]+\.operation_name$", t) or re.match(r"^[\w.]+\.operation_name == \w+\.name\.value$", t):
+                return equal
+            # a predicate factored out into a helper
+            for n in ast.walk(owner.node):
+                if isinstance(n, ast.Call) and boolx.text(n) == t:
+                    cal = prog.resolve_call(owner, n)
+                    cal = [c for c in (cal or []) if hasattr(c, "node") and c.name != "__init__"]
+                    if len(cal) == 1 and cal[0].module.name == MOD:
+                        run.looked_at(cal[0])
+                        ts = boolx.returned_truths(cal[0].node, role_decide(configured, named, equal, cal[0]))
+                        if len(ts) == 1 and "raise" not in ts:
+                            return ts.pop()
+                        raise AnalysisError("C19.D3: helper %s is not decided by (configured, named, equal): %s" % (cal[0].qualname, sorted(map(str, ts))))
+            return None
+        return decide
+    bad, n_rows = [], 0
+    body_fn = boolx.body_function(loop.body)
+    for configured in (False, True):
+        for named in (False, True):
+            for equal in (False, True):
+                if equal and not named:
+                    continue
+                try:
+                    _ev, bexits = boolx.walk_under(body_fn, role_decide(configured, named, equal, call))
+                except ValueError as e:
+                    raise AnalysisError("C19.D3: %s" % e)
+                outcomes = set()
+                for kind, st, env in bexits:
+                    measured = any(shapes.call_name(c) in MEASURES for c in env.get(boolx.CALLS, ()))
+                    outcomes.add("measured" if measured else "skipped")
+                want = configured and not (named and equal)
+                n_rows += 1
+                r.instance("filter row configured=%s named=%s equal=%s -> %s" % (configured, named, equal, sorted(outcomes)))
+                if outcomes != ({"skipped"} if want else {"measured"}):
+                    bad.append({"configured": configured, "named": named, "equal": equal, "outcomes": sorted(outcomes), "expected": "skipped" if want else "measured"})
+    if bad and has_kw:
+        run.report(r, "%s:MaxDepthValidationRule.__call__:operation_name-filter" % MOD, call.where(loop),
+                   "operation_name filter has the wrong truth table (an operation is measured iff no name is configured or its own "
+                   "name equals the configured one): %s" % bad, {"rows": bad})
 
     # ---- D4: merged groups
     r = run.rule("D4", "when fields are grouped by response key, the sub-selections of every member of a group are "
